@@ -29,6 +29,24 @@ class IsolatedCallError(Exception):
 def call(fn, *args, timeout=240.0, **kw):
     if os.environ.get('VERIF_NO_ISOLATE'):
         return fn(*args, **kw)
+    # every scratch file of the run (the table manager's log) lives in a directory that the
+    # parent removes whatever becomes of the child
+    import shutil
+    import tempfile
+    scratch = tempfile.mkdtemp(prefix='bevsim-iso-')
+    old_scratch = os.environ.get('VERIF_SCRATCH')
+    os.environ['VERIF_SCRATCH'] = scratch
+    try:
+        return _call_forked(fn, args, kw, timeout)
+    finally:
+        if old_scratch is None:
+            os.environ.pop('VERIF_SCRATCH', None)
+        else:
+            os.environ['VERIF_SCRATCH'] = old_scratch
+        shutil.rmtree(scratch, ignore_errors=True)
+
+
+def _call_forked(fn, args, kw, timeout):
     r, w = os.pipe()
     sys.stdout.flush()
     sys.stderr.flush()
